@@ -5,7 +5,7 @@
    request: at most one delivery per send); crash = [ECrash]. [hasm s T] = T's mutations were logged,
    [classic s T] = T never used async commit / 1PC (then no resolve of T can be derived from the
    CheckSecondaryLocks fold: Inv.classic_flags). [F s T FTold] = 1 / 2 / 3 for Commit returning nil / undetermined / error. *)
-From Verif Require Import Percolator.Atomic Percolator.Trace Percolator.ProofsTrace Percolator.AddKeys Percolator.Heartbeat.
+From Verif Require Import Percolator.Async8 Percolator.Trace Percolator.ProofsTrace Percolator.AddKeys Percolator.Heartbeat.
 From Coq Require Import Sorting.Sorted Permutation.
 
 (* ---------------- C02: crash atomicity (classic 2PC, optimistic and pessimistic prewrite) ---------------- *)
@@ -39,12 +39,92 @@ Theorem C02_invariant : Inv System.init /\ (forall s e s', Inv s -> step s e = S
 Proof. exact (conj inv_init (conj inv_step inv_run)). Qed.
 Print Assumptions C02_invariant.
 
-(* async commit / 1PC: the acceptor checks rules 1, 6, 7 for them (C04_accept_sound) but the model does not
-   derive atomicity from the CheckSecondaryLocks fold; what is proved is the one-step atomicity of 1PC *)
-Theorem C02_atomic_async_partial : forall s s' r T ks m o, o <> 0 ->
-  stepr s (EPwDeliver r T ks (PwOk m o)) = Ok s' -> forall k, In k ks -> kget s' T k = Committed o.
-Proof. exact onepc_atomic_step. Qed.
-Print Assumptions C02_atomic_async_partial.
+(* ---- one-phase commit that has not fallen back: [onepcm s T] = mutations logged, every prewrite request
+   asked for 1PC, the store never answered with a fallback (one-pc ts 0). The store applies the request in
+   one step, so all keys of the transaction are committed together at the store-chosen ts. ---- *)
+Theorem C02_atomic_onepc : forall evs s T, run evs = Some s -> onepcm s T ->
+  (forall k1 k2 c1 c2, kget s T k1 = Committed c1 -> kget s T k2 = Committed c2 -> c1 = c2) /\
+  (forall k1 k2 c, kget s T k1 = Committed c -> In k2 (lm s T) -> kget s T k2 <> RolledBack) /\
+  (forall k c, kget s T k = Committed c -> forall k', In k' (call s T) -> kget s T k' = Committed c) /\
+  (F s T FTold = 1 -> exists c, (forall k, In k (call s T) -> kget s T k = Committed c) /\
+     forall evs' s', run_from s evs' = Some s' -> forall k, In k (call s T) -> kget s' T k = Committed c) /\
+  (F s T FTold = 3 -> forall evs' s', run_from s evs' = Some s' ->
+     F s' T FTold = 3 /\ forall k c, kget s' T k <> Committed c).
+Proof.
+  intros evs s T R Hm. split; [| split; [| split; [| split]]].
+  - exact (onepc_one_ts evs s T R Hm).
+  - exact (onepc_all_or_nothing evs s T R Hm).
+  - exact (onepc_all_committed evs s T R Hm).
+  - exact (onepc_told_ok evs s T R Hm).
+  - exact (onepc_told_err evs s T R Hm).
+Qed.
+Print Assumptions C02_atomic_onepc.
+
+(* ---- async commit that has not fallen back: [asyncm s T] = mutations logged, every prewrite request asked
+   for async commit (and none for 1PC), no reply / delivery reported min-commit 0, no forced fallback.
+   [Sealed s T] = every locked mutation has been prewritten; [cstar s T] = max of the min-commit ts of its
+   locks (ghost map [lamk], fixed when a key is first locked); [NSa s T] = some locked mutation can never be
+   locked. The theorem holds for EVERY accepted trace, hence also after any accepted extension in which T is
+   still in async mode (see C02_atomic_async_extension). ---- *)
+Theorem C02_atomic_async : forall evs s T, run evs = Some s -> asyncm s T ->
+  (* (i) one commit ts, and it is cstar *)
+  (forall k c, kget s T k = Committed c -> Sealed s T /\ c = cstar s T) /\
+  (* (ii) all or nothing *)
+  (forall k1 k2 c, kget s T k1 = Committed c -> In k2 (lm s T) -> kget s T k2 <> RolledBack) /\
+  (* the owner's commit requests and every resolver decision carry cstar (resp. roll back only a dead transaction) *)
+  (forall r C ks, In (ECmSend r T C ks) (s_sent s) -> Sealed s T /\ C = cstar s T) /\
+  (forall r C ks, In (ERsSend r T C ks) (s_sent s) -> (C <> 0 -> Sealed s T /\ C = cstar s T) /\ (C = 0 -> NSa s T)) /\
+  (* (iii) told success => sealed: every locked mutation is locked or committed at cstar, every resolver commits at cstar *)
+  (F s T FTold = 1 ->
+     Sealed s T /\
+     (forall k, In k (lm s T) -> (exists m, kget s T k = Locked m /\ m <= cstar s T) \/ kget s T k = Committed (cstar s T)) /\
+     (forall r C ks, In (ERsSend r T C ks) (s_sent s) -> C = cstar s T /\ C <> 0)) /\
+  (* (iv) told a definite failure => nothing committed, every resolver decision is a rollback *)
+  (F s T FTold = 3 -> (forall k c, kget s T k <> Committed c) /\ (forall r C ks, In (ERsSend r T C ks) (s_sent s) -> C = 0)).
+Proof.
+  intros evs s T R Am. split; [| split; [| split; [| split; [| split]]]].
+  - exact (async_commit_ts evs s T R Am).
+  - exact (async_all_or_nothing evs s T R Am).
+  - exact (async_owner_commit evs s T R Am).
+  - exact (async_resolver_decision evs s T R Am).
+  - exact (async_told_ok evs s T R Am).
+  - exact (async_told_err evs s T R Am).
+Qed.
+Print Assumptions C02_atomic_async.
+
+Lemma run_from_app : forall a s b s1 s2, run_from s a = Some s1 -> run_from s1 b = Some s2 -> run_from s (a ++ b) = Some s2.
+Proof.
+  induction a as [| e a IH]; intros s b s1 s2 H1 H2; cbn [run_from app] in *.
+  - inversion H1. subst. auto.
+  - destruct (step s e) as [s0 |]; try discriminate. eapply IH; eauto.
+Qed.
+
+Theorem C02_atomic_async_extension : forall evs s T evs' s', run evs = Some s -> run_from s evs' = Some s' -> asyncm s' T ->
+  (F s T FTold = 1 -> F s' T FTold = 1 /\ Sealed s' T /\
+     (forall k, In k (lm s' T) -> (exists m, kget s' T k = Locked m /\ m <= cstar s' T) \/ kget s' T k = Committed (cstar s' T))) /\
+  (F s T FTold = 3 -> F s' T FTold = 3 /\ forall k c, kget s' T k <> Committed c).
+Proof.
+  intros evs s T evs' s' R R' Am'. assert (R2 : run (evs ++ evs') = Some s') by (eapply run_from_app; eauto).
+  destruct (run_from_frozen _ _ _ T R') as [Fz _]. split; intros Ht.
+  - destruct Fz as [E _]; [rewrite Ht; discriminate |]. assert (Ht' : F s' T FTold = 1) by congruence. split; auto.
+    destruct (async_told_ok _ _ _ R2 Am' Ht') as [A [B _]]. auto.
+  - destruct Fz as [E _]; [rewrite Ht; discriminate |]. assert (Ht' : F s' T FTold = 3) by congruence. split; auto.
+    apply (async_told_err _ _ _ R2 Am' Ht').
+Qed.
+Print Assumptions C02_atomic_async_extension.
+
+(* what is NOT covered: transactions that fall back (async commit -> 2PC, 1PC -> async commit / 2PC: the owner sent a
+   prewrite without the flag, a prewrite reply or delivery carried min-commit 0 / one-pc ts 0, or a resolver forced the
+   fallback through CheckTxnStatus). For them only the request-stream rules (C04_accept_sound), the told-err guard and the
+   stability of the store's records are proved: *)
+Theorem C02_atomic_fallback_partial : forall evs s T evs' s' k, run evs = Some s -> run_from s evs' = Some s' ->
+  (forall c, kget s T k = Committed c -> kget s' T k = Committed c) /\ (kget s T k = RolledBack -> kget s' T k = RolledBack).
+Proof.
+  intros evs s T evs' s' k R R'. pose proof (run_from_kmono _ _ _ R') as KM. split; intros.
+  - eapply km_committed; eauto.
+  - eapply km_rolledback; eauto.
+Qed.
+Print Assumptions C02_atomic_fallback_partial.
 
 (* ---------------- C03: truthfulness of Commit's answer under faults ---------------- *)
 Theorem C03_truthful : forall evs s T, run evs = Some s -> hasm s T -> classic s T ->
@@ -59,6 +139,22 @@ Proof.
   - exact (told_err_never evs s T R Hm Hc).
 Qed.
 Print Assumptions C03_truthful.
+
+Theorem C03_truthful_onepc : forall evs s T, run evs = Some s -> onepcm s T ->
+  (F s T FTold = 1 -> exists c, (forall k, In k (call s T) -> kget s T k = Committed c) /\
+     forall evs' s', run_from s evs' = Some s' -> forall k, In k (call s T) -> kget s' T k = Committed c) /\
+  (F s T FTold = 3 -> forall evs' s', run_from s evs' = Some s' -> F s' T FTold = 3 /\ forall k c, kget s' T k <> Committed c).
+Proof. intros evs s T R Hm. split; [exact (onepc_told_ok evs s T R Hm) | exact (onepc_told_err evs s T R Hm)]. Qed.
+Print Assumptions C03_truthful_onepc.
+
+Theorem C03_truthful_async : forall evs s T, run evs = Some s -> asyncm s T ->
+  (F s T FTold = 1 ->
+     Sealed s T /\
+     (forall k, In k (lm s T) -> (exists m, kget s T k = Locked m /\ m <= cstar s T) \/ kget s T k = Committed (cstar s T)) /\
+     (forall r C ks, In (ERsSend r T C ks) (s_sent s) -> C = cstar s T /\ C <> 0)) /\
+  (F s T FTold = 3 -> (forall k c, kget s T k <> Committed c) /\ (forall r C ks, In (ERsSend r T C ks) (s_sent s) -> C = 0)).
+Proof. intros evs s T R Am. split; [exact (async_told_ok evs s T R Am) | exact (async_told_err evs s T R Am)]. Qed.
+Print Assumptions C03_truthful_async.
 
 Theorem C03_undetermined_only_if : forall evs s, run evs = Some s -> undetermined_only_if evs.
 Proof. exact undetermined_only_if_holds. Qed.
@@ -162,4 +258,39 @@ Example rejected_told_err_with_pending_commit : reject_of (happy_prefix ++
 Proof. vm_compute. reflexivity. Qed.
 Example accepted_undetermined_on_lost_reply : reject_of (happy_prefix ++
   [ ECmSend 1 S0 (S0 + 2) [10]; ECmDeliver 1 S0 (S0 + 2) [10] CmOk; ETold S0 TUndet ]) = None.
+Proof. vm_compute. reflexivity. Qed.
+
+(* async commit and 1PC: the mode hypotheses are satisfiable by accepted traces *)
+Definition async_happy : list event :=
+  [ ETso S0; EBegin 1 S0; ECommitCall S0 false; ETso (S0 + 1); EMutations S0 10 [(10, OpPut); (11, OpPut)];
+    EPwSend 1 S0 10 [10] true false (S0 + 2) 0 [11]; EPwSend 1 S0 10 [11] true false (S0 + 2) 0 [];
+    EPwDeliver 1 S0 [10] (PwOk (S0 + 3) 0); EPwDeliver 1 S0 [11] (PwOk (S0 + 4) 0);
+    EPwReply 1 S0 [10] (PwOk (S0 + 3) 0); EPwReply 1 S0 [11] (PwOk (S0 + 4) 0); ETold S0 TOk;
+    ECmSend 1 S0 (S0 + 4) [11]; ECmDeliver 1 S0 (S0 + 4) [11] CmOk ].
+Example async_happy_accepted : exists s, run async_happy = Some s /\ asyncm s S0 /\ F s S0 FTold = 1 /\
+  cstar s S0 = S0 + 4 /\ kget s S0 11 = Committed (S0 + 4) /\ kget s S0 10 = Locked (S0 + 3).
+Proof.
+  destruct (run async_happy) as [s |] eqn:E; [| vm_compute in E; discriminate]. exists s. split; auto.
+  vm_compute in E. inversion E. unfold asyncm, hasm. repeat split; vm_compute; congruence.
+Qed.
+Definition onepc_happy : list event :=
+  [ ETso S0; EBegin 1 S0; ECommitCall S0 false; ETso (S0 + 1); EMutations S0 10 [(10, OpPut); (11, OpPut)];
+    EPwSend 1 S0 10 [10; 11] true true (S0 + 2) 0 [11]; EPwDeliver 1 S0 [10; 11] (PwOk 0 (S0 + 3));
+    EPwReply 1 S0 [10; 11] (PwOk 0 (S0 + 3)); ETold S0 TOk ].
+Example onepc_happy_accepted : exists s, run onepc_happy = Some s /\ onepcm s S0 /\ F s S0 FTold = 1 /\
+  kget s S0 10 = Committed (S0 + 3) /\ kget s S0 11 = Committed (S0 + 3).
+Proof.
+  destruct (run onepc_happy) as [s |] eqn:E; [| vm_compute in E; discriminate]. exists s. split; auto.
+  vm_compute in E. inversion E. unfold onepcm, hasm. repeat split; vm_compute; congruence.
+Qed.
+(* async commit: a definite error while the primary's prewrite is unanswered is rejected; with the primary never sent it is accepted *)
+Example async_err_primary_pending_rejected : reject_of
+  [ ETso S0; EBegin 1 S0; ECommitCall S0 false; EMutations S0 10 [(10, OpPut); (11, OpPut)];
+    EPwSend 1 S0 10 [10] true false (S0 + 2) 0 [11]; EPwSend 1 S0 10 [11] true false (S0 + 2) 0 [];
+    EPwDeliver 1 S0 [11] (PwOk (S0 + 4) 0); EPwReply 1 S0 [11] (PwOk (S0 + 4) 0); ETold S0 TErr ] = Some (8%nat, R7_err_with_pending).
+Proof. vm_compute. reflexivity. Qed.
+Example async_err_primary_never_sent_accepted : reject_of
+  [ ETso S0; EBegin 1 S0; ECommitCall S0 false; EMutations S0 10 [(10, OpPut); (11, OpPut)];
+    EPwSend 1 S0 10 [11] true false (S0 + 2) 0 [];
+    EPwDeliver 1 S0 [11] (PwOk (S0 + 4) 0); ETold S0 TErr ] = None.
 Proof. vm_compute. reflexivity. Qed.
